@@ -9,7 +9,7 @@ import json
 
 from hedmon.core import env
 from hedmon.gen import annot, tables
-from hedmon.oracle import schema_xml
+from hedmon.oracle import schema_xml, hedparse
 
 ID = "C07"
 LEVEL = "exploration"
@@ -20,9 +20,14 @@ RULE = ("tables from the C06 generator (1-3 HED-bearing columns, references, n/a
         ">= 1 issue or temporal group; distinct = distinct (sidecar, table, definitions)")
 ASSUMPTIONS = ["'individually error-free cell' is decided with hed's own basic checks on the cell (relational monitor)",
                "TEMPORAL_TAG_ERROR is excluded from the row-equality relation (C10 decides the temporal pass)",
-               "rows sharing an onset or holding a Delay group are excluded from the equality relation, not from the others"]
+               "rows whose onset, or the effective time of one of whose Delay groups, coincides with another row or delayed group "
+               "are excluded from the equality relation (hed joins them and labels the first row), not from the others; "
+               "effective times use hed's own unit conversion (checked by C11)",
+               "a row holding Delay groups is compared only when its string-level errors are the sum of the errors of "
+               "its parts (no error exists only between a delayed group and the rest of the row)"]
 MIN_MONITOR_EVALS = {"no-exception": 500, "row-equals-string-validation": 800, "cell-errors-present": 100,
-                     "location-well-formed": 500, "fault-located": 100, "permutation-relation": 300}
+                     "location-well-formed": 500, "fault-located": 100, "permutation-relation": 300,
+                     "delay-row-equals-string-validation": 100}
 VERSIONS = ["8.3.0", "8.2.0", "score_2.0.0"]
 CELL_FAULTS = ["unknown-tag", "extension-forbidden", "requires-child", "bad-unit", "bad-value", "repeated-tag",
                "repeated-group", "empty-group", "undeclared-def", "double-comma", "extra-close-paren", "bracket-char",
@@ -74,7 +79,23 @@ def make_case(gen, rng):
             if g is not None:
                 extra = annot.render([g], rng)
                 row[hi] = extra if row[hi] in ("n/a", "") else row[hi] + ", " + extra
-        elif q < 0.55:
+        elif q < 0.47 and "onset" in cols and "Delay" in gen.top:
+            # several Delay groups in one row (each is validated at its own effective time); some carry an error
+            # that only full-string validation finds (a tag repeated inside the delayed group)
+            try:
+                groups = []
+                dn = gen.sp["Delay"]
+                for _ in range(rng.randrange(2, 4)):
+                    inner = gen.plain_group(2)
+                    if rng.random() < 0.4:
+                        inner["kids"].append(copy.deepcopy(inner["kids"][0]))
+                    groups.append(annot.group([annot.tag(gen.spell(dn), "/" + gen._time_value(dn), dn.path, "delay"),
+                                               inner], "duration-group"))
+                extra = annot.render(groups, rng)
+                row[hi] = extra if row[hi] in ("n/a", "") else row[hi] + ", " + extra
+            except RuntimeError:
+                pass
+        elif q < 0.68:
             try:
                 items = gen.annotation(depth=2, temporal=False, size=rng.randrange(1, 3), reset=False)
                 m = annot.mutate(gen, items, rng.choice(CELL_FAULTS), rng)
@@ -186,6 +207,7 @@ def check_case(case, rec):
     hv = HedValidator(schema, def_dicts=full_dd)
     onset_col = cols.index("onset") if "onset" in cols else None
     onsets = [row[onset_col] for row in b["rows"]] if onset_col is not None else None
+    isolated = isolated_rows(onsets, series, schema) if onsets is not None else None
     all_cell_errs = {}
     for r in range(n):
         cell_errs = {}
@@ -214,7 +236,10 @@ def check_case(case, rec):
             continue
         text = series[r]
         if onsets is not None:
-            if onsets.count(onsets[r]) != 1 or "delay/" in text.casefold():
+            if not isolated[r]:
+                continue
+            if "delay/" in text.casefold():
+                check_delay_row(case, rec, r, text, row_issues, schema, full_dd)
                 continue
         rec.mon("row-equals-string-validation")
         try:
@@ -232,7 +257,7 @@ def check_case(case, rec):
         if case["kind"] != "spreadsheet" and "HED" in tables.refs_of(b):
             continue                                    # the HED cell is spliced into another column
         r = f["row"]
-        if onsets is not None and onsets.count(onsets[r]) != 1:
+        if onsets is not None and not isolated[r]:
             continue
         if any(c != f["col"] for c in all_cell_errs.get(r, {})) or sum(1 for g in case["faults"] if g["row"] == r) != 1:
             continue
@@ -272,6 +297,73 @@ def check_case(case, rec):
                 break
 
 
+def isolated_rows(onsets, series, schema):
+    """hed joins everything that takes effect at one time (rows with equal onsets, and groups shifted there by a
+    Delay tag) and labels the joint issues with the first row of the set. A row is judged only when neither its onset
+    nor the effective time of any of its delayed groups coincides with another row or delayed group."""
+    from hed.models.hed_string import HedString
+    n = len(onsets)
+    events = []                                    # (time, row)
+    for r in range(n):
+        try:
+            t0 = float(onsets[r])
+        except ValueError:
+            continue
+        events.append((t0, r))
+        if "delay/" in (series[r] or "").casefold():
+            try:
+                for tg, _grp in HedString(series[r], schema).find_top_level_tags({"delay"}):
+                    d = tg.value_as_default_unit()
+                    if d is not None:
+                        events.append((t0 + d, r))
+            except Exception:  # noqa   (a row that does not parse: nothing of this file is judged by time)
+                return [False] * n
+    out = []
+    for r in range(n):
+        mine = [t for t, q in events if q == r]
+        clash = any(abs(t - u) <= 1e-6 for t in mine for u, q in events if q != r)
+        clash = clash or any(abs(mine[i] - mine[j]) <= 1e-6 for i in range(len(mine)) for j in range(i + 1, len(mine)))
+        out.append(not clash)
+    return out
+
+
+def check_delay_row(case, rec, r, text, row_issues, schema, full_dd):
+    """A row holding Delay groups: the groups are validated at their own effective time, so an error that only exists
+    between a delayed group and the rest of the row may or may not be reported. When no such interaction exists (the
+    errors of the whole annotation are the errors of the remainder plus those of every delayed group alone), the
+    file-level codes of the row must still be exactly the string-level ones."""
+    from hed.models.hed_string import HedString
+    kids, ok = hedparse.parse(text)
+    if not ok:
+        return
+    delayed, rest = [], []
+    for k in kids:
+        if k[0] == "G" and any(("/" + text[t[1]:t[2]].casefold()).find("/delay/") >= 0 for t in hedparse.tags_of(k[3])):
+            delayed.append(text[k[1]:k[2]])
+        else:
+            rest.append(text[k[1]:k[2]])
+    if not delayed:
+        return
+    try:
+        whole = err_codes(HedString(text, schema, full_dd).validate(allow_placeholders=False))
+        parts = []
+        for piece in [", ".join(rest)] + delayed:
+            if piece:
+                parts += err_codes(HedString(piece, schema, full_dd).validate(allow_placeholders=False))
+    except Exception as ex:  # noqa
+        rec.violation(f"string-level validation raised {type(ex).__name__}", dict(case, row=r))
+        return
+    if sorted(parts) != whole:
+        rec.count("delay-row", "interaction-skipped")
+        return
+    rec.mon("delay-row-equals-string-validation")
+    rec.count("delay-row", f"{min(len(delayed), 3)} delayed group(s), errors={bool(whole)}")
+    got = err_codes(row_issues)
+    if got != whole:
+        rec.violation("error codes of a row holding Delay groups differ between file-level and string-level validation",
+                      dict(case, row=r, text=text, string_level=whole, file_level=got))
+
+
 def make_nonames_case(gen, rng):
     """Spreadsheet without a header row: integer column identifiers, cell-level and row-level issues mixed."""
     gen.used = set()
@@ -289,7 +381,7 @@ def make_nonames_case(gen, rng):
                 row.append("n/a")
             elif q < 0.45:
                 row.append(annot.render([shared] + ([gen.atom()] if rng.random() < 0.5 else []), rng))   # repeated across columns
-            elif q < 0.6:
+            elif q < 0.68:
                 m = annot.mutate(gen, [gen.atom()], rng.choice(["unknown-tag", "bad-value", "empty-group", "double-comma"]), rng)
                 row.append(m["text"] if m else "n/a")
             else:
